@@ -191,6 +191,15 @@ def sym_matrix(g, n, cls):
             elif cls == 'integer': v = float(g.randint(-3, 3))
             elif cls == 'ascending': v = float(i + 1) if i == j else g.r.uniform(-1, 1) * 1e-9
             elif cls == 'descending': v = float(n - i) if i == j else g.r.uniform(-1, 1) * 1e-9
+            elif cls in ('block-equal', 'block-zero'):
+                # dense leading block, then a decoupled pair with equal diagonal entries and exactly zero coupling
+                m = n - 2
+                if i < m and j < m: v = float(g.randint(-4, 4)) if g.random() < 0.5 else g.r.uniform(-1, 1)
+                elif i == j: v = 3.0 if cls == 'block-equal' else 0.0
+                else: v = 0.0
+            elif cls == 'two-blocks':
+                m = n // 2
+                v = (g.r.uniform(-1, 1) if (i < m) == (j < m) else 0.0)
             elif cls == 'zero': v = 0.0
             elif cls == 'rank1': v = 1.0
             else: v = g.r.uniform(-1, 1)
@@ -198,7 +207,7 @@ def sym_matrix(g, n, cls):
     return up
 
 
-CLASSES = ['dense', 'diagdom', 'repeated', 'integer', 'ascending', 'descending', 'zero', 'rank1']
+CLASSES = ['dense', 'diagdom', 'repeated', 'integer', 'ascending', 'descending', 'zero', 'rank1', 'block-equal', 'block-zero', 'two-blocks']
 
 
 def gen_C10(g, tier):
@@ -235,7 +244,7 @@ def gen_C10(g, tier):
         cs.append(Case('jac.complex2 %s' % hexes([p, q2, pq, g.r.uniform(-1, 1) * abs(pq)]), 'cmp', 'jacobi-rotation-complex'))
     for cls in CLASSES:
         for size in range(2, 9):
-            for _ in range(1 if tier == 'quick' else 12):
+            for _ in range((3 if cls.startswith('block') else 1) if tier == 'quick' else 12):
                 up = sym_matrix(g, size, cls)
                 for k in ([0, 500, -500, g.randint(-400, 400)] if tier != 'quick' else [0, g.choice([-500, 500, -50, 50])]):
                     scale = 2.0 ** k
@@ -247,7 +256,7 @@ def gen_C10(g, tier):
                         for i in range(size):
                             cvals.append(up[(i, i)] * scale)
                             for j in range(i + 1, size):
-                                cvals += [up[(i, j)] * scale, (0.0 if cls in ('integer', 'repeated', 'rank1', 'zero') else g.r.uniform(-1, 1) * abs(up[(i, j)])) * scale]
+                                cvals += [up[(i, j)] * scale, (0.0 if cls in ('integer', 'repeated', 'rank1', 'zero') or up[(i, j)] == 0.0 else g.r.uniform(-1, 1) * abs(up[(i, j)])) * scale]
                         cs.append(Case('o.c10.cjacobi %d %s%s' % (size, hexes(cvals), note), 'orc', 'jacobi-complex-' + cls, check=flags_then_small(1, 1e-8)))
     return cs
 
